@@ -288,6 +288,45 @@ func runOp(dir string, op map[string]any) map[string]any {
 		} else {
 			code = 200
 		}
+	case "linkdir":
+		// scaffolding: a layout the code supports explicitly (PruneDirectory keeps linked directories): a host /
+		// namespace / model directory below manifests/ — or blobs/ — is a symbolic link to a directory elsewhere;
+		// "dangling": the link's target does not exist.  Relative targets, so that copies of the store stay self-contained.
+		code = 200
+		kind := str(op, "kind")
+		link := filepath.Join(dir, "manifests", filepath.FromSlash(str(op, "path")))
+		target := filepath.Join(dir, "linked", strings.ReplaceAll(str(op, "path"), "/", "_"))
+		if kind == "blobs" {
+			link = filepath.Join(dir, "blobs")
+			target = filepath.Join(dir, "linkedblobs")
+		}
+		if _, err := os.Lstat(link); err == nil {
+			code, body = 409, "exists"
+			break
+		}
+		os.MkdirAll(filepath.Dir(link), 0o755)
+		if kind != "dangling" {
+			os.MkdirAll(target, 0o755)
+		} else {
+			os.MkdirAll(filepath.Dir(target), 0o755)
+		}
+		// relative to where the link physically lives (its parent may itself be reached through a link)
+		parent := filepath.Dir(link)
+		if rp, err := filepath.EvalSymlinks(parent); err == nil {
+			parent = rp
+		}
+		base := dir
+		if rb, err := filepath.EvalSymlinks(dir); err == nil {
+			base = rb
+		}
+		target = filepath.Join(base, strings.TrimPrefix(target, dir))
+		rel, err := filepath.Rel(parent, target)
+		if err == nil {
+			err = os.Symlink(rel, link)
+		}
+		if err != nil {
+			code, body = 500, err.Error()
+		}
 	case "head":
 		code, body = do("HEAD", "/api/blobs/"+str(op, "digest"), nil)
 	case "legacy":
@@ -371,41 +410,74 @@ func project(dir string) map[string]any {
 	inodes := map[uint64][]map[string]any{} // files of the store that share an inode (hard links)
 	emptyDirs := 0
 	mroot := filepath.Join(dir, "manifests")
-	filepath.Walk(mroot, func(p string, info os.FileInfo, err error) error {
-		if err != nil {
-			return nil
+	// the manifests tree as the server sees it: directories that are symbolic links are followed (create, copy,
+	// pull, show and the `*/*/*/*` glob of Manifests work through them, PruneDirectory deliberately keeps them); the
+	// links themselves are part of the state
+	links := []map[string]any{}
+	var walk func(abs, rel string, depth int, linked bool)
+	walk = func(abs, rel string, depth int, linked bool) {
+		es, err := os.ReadDir(abs)
+		if err != nil || depth > 6 {
+			return
 		}
-		rel, _ := filepath.Rel(mroot, p)
-		if info.IsDir() {
-			if es, _ := os.ReadDir(p); len(es) == 0 && rel != "." {
-				emptyDirs++
+		if len(es) == 0 && rel != "" && !linked {
+			emptyDirs++
+		}
+		for _, de := range es {
+			p := filepath.Join(abs, de.Name())
+			r := de.Name()
+			if rel != "" {
+				r = rel + "/" + de.Name()
 			}
-			return nil
-		}
-		e := map[string]any{"path": filepath.ToSlash(rel)}
-		noteIdentity(e, "manifests/"+filepath.ToSlash(rel), p, info, inodes)
-		b, rerr := os.ReadFile(p)
-		var m pManifest
-		if rerr == nil {
-			rerr = json.NewDecoder(bytes.NewReader(b)).Decode(&m)
-		}
-		if rerr != nil {
-			e["readable"] = false
-			e["len"] = len(b)
-		} else {
-			e["readable"] = true
-			e["config"] = m.Config
-			if m.Layers == nil {
-				m.Layers = []pLayer{}
+			info, err := os.Lstat(p)
+			if err != nil {
+				continue
 			}
-			e["layers"] = m.Layers
+			if info.Mode()&os.ModeSymlink != 0 {
+				ti, terr := os.Stat(p)
+				if terr != nil {
+					links = append(links, map[string]any{"path": r, "dangling": true})
+					continue
+				}
+				if ti.IsDir() {
+					links = append(links, map[string]any{"path": r, "dir": true})
+					walk(p, r, depth+1, true)
+					continue
+				}
+			}
+			if info.IsDir() {
+				walk(p, r, depth+1, linked)
+				continue
+			}
+			e := map[string]any{"path": r}
+			noteIdentity(e, "manifests/"+r, p, info, inodes)
+			b, rerr := os.ReadFile(p)
+			var m pManifest
+			if rerr == nil {
+				rerr = json.NewDecoder(bytes.NewReader(b)).Decode(&m)
+			}
+			if rerr != nil {
+				e["readable"] = false
+				e["len"] = len(b)
+			} else {
+				e["readable"] = true
+				e["config"] = m.Config
+				if m.Layers == nil {
+					m.Layers = []pLayer{}
+				}
+				e["layers"] = m.Layers
+			}
+			mans = append(mans, e)
 		}
-		mans = append(mans, e)
-		return nil
-	})
+	}
+	walk(mroot, "", 0, false)
+	sort.Slice(mans, func(i, j int) bool { return mans[i]["path"].(string) < mans[j]["path"].(string) })
 	blobs := []map[string]any{}
 	other := []string{}
 	broot := filepath.Join(dir, "blobs")
+	if li, err := os.Lstat(broot); err == nil && li.Mode()&os.ModeSymlink != 0 {
+		links = append(links, map[string]any{"path": "blobs", "dir": true, "top": true})
+	}
 	if es, err := os.ReadDir(broot); err == nil {
 		for _, e := range es {
 			p := filepath.Join(broot, e.Name())
@@ -463,13 +535,13 @@ func project(dir string) map[string]any {
 	}
 	if es, err := os.ReadDir(dir); err == nil {
 		for _, e := range es {
-			if e.Name() != "blobs" && e.Name() != "manifests" {
+			if e.Name() != "blobs" && e.Name() != "manifests" && !strings.HasPrefix(e.Name(), "linked") {
 				other = append(other, e.Name())
 			}
 		}
 	}
 	sort.Strings(other)
-	return map[string]any{"manifests": mans, "blobs": blobs, "other": other, "empty_dirs": emptyDirs}
+	return map[string]any{"manifests": mans, "blobs": blobs, "other": other, "empty_dirs": emptyDirs, "links": links}
 }
 
 var partRecordName = regexp.MustCompile(`-partial-[0-9]+$`)
